@@ -159,6 +159,35 @@ def series (ι : Int → α) (G : Game α) (k : Kind α) :
       | none => none
     else none
 
+/-! ### explicit object state and call histories (BRD / KMR / SamplingBRD instances)
+
+  The Python objects hold `player.payoff_array`, `tol`, `tie_breaking`, `epsilon`, `k` as plain public
+  attributes and have no caches: an attribute reassignment or an in-place edit of the payoff array
+  replaces the state (`Op.set`), a `time_series` call reads the state current at that moment and leaves
+  it unchanged. -/
+
+/-- the state of one instance -/
+structure Obj (α : Type) where
+  G : Game α
+  kind : Kind α
+
+/-- what can happen to an instance -/
+inductive Op (α : Type) where
+  | set (o : Obj α)                                          -- attributes reassigned / arrays edited in place
+  | series (inps : List (Inp α)) (s : List Int × List Nat)   -- `time_series` (inputs, initial state, stream)
+
+/-- the answers of the `series` calls of a history, in order -/
+def runOps (ι : Int → α) : Obj α → List (Op α) → List (Option (List (List Int) × (List Int × List Nat)))
+  | _, [] => []
+  | _, .set o' :: rest => runOps ι o' rest
+  | o, .series inps s :: rest => series ι o.G o.kind inps s :: runOps ι o rest
+
+/-- the `series` calls of a history, each paired with the object state current when it is made -/
+def callsWithState : Obj α → List (Op α) → List (Obj α × List (Inp α) × (List Int × List Nat))
+  | _, [] => []
+  | _, .set o' :: rest => callsWithState o' rest
+  | o, .series inps s :: rest => (o, inps, s) :: callsWithState o rest
+
 /-! ## FictitiousPlay / StochasticFictitiousPlay (2 players) -/
 
 variable [One α] [Div α]
